@@ -58,8 +58,9 @@ func auxPool(r *Run) string {
 func (w *World) populate(nusers int) []string {
 	r := w.r
 	var users []string
+	nameScheme := r.Choose("pop-names", 2) // the second scheme: names that are dotted extensions of another user's name
 	for i := 0; i < nusers; i++ {
-		u := []string{"root", "alice", "bob", "a.user"}[i]
+		u := [][]string{{"root", "alice", "bob", "a.user"}, {"root", "alice", "alice.smith", "alice.ops.example.org"}}[nameScheme][i]
 		set := w.cfg.Sets[r.Choose("pop-set", len(w.cfg.Sets))]
 		pw := fmt.Sprintf("initial-%s-%d", u, r.Choose("pop-pw", 3))
 		salt := make([]byte, set.SaltLen())
